@@ -197,6 +197,8 @@ def render(v, depth=0):
         return 'closure:%s' % v[1]
     if t == 'self':
         return 'self'
+    if t == 'phi':
+        return 'φ(' + ' | '.join(render(a, d) for a in v[1]) + ')'
     return '%s(%s)' % (t, ', '.join(render(a, d) if isinstance(a, tuple) else repr(a) for a in v[1:]))
 
 
@@ -217,6 +219,23 @@ def contains_term(v, pred):
     for t in subterms(v):
         if pred(t):
             return True
+    return False
+
+
+MUTATORS = ('update', 'append', 'extend', 'pop', 'popitem', '__delitem__', '__setitem__', 'clear', 'insert', 'remove',
+            'add', 'discard', 'setdefault', 'sort', 'reverse')
+
+def empty_literal(v):
+    if not isinstance(v, tuple) or not v:
+        return False
+    if v[0] in ('dict', 'tuple', 'list', 'set') and not v[1]:
+        return True
+    if v[0] in ('star', 'dstar'):
+        return empty_literal(v[1])
+    if v[0] == 'call' and v[1][0] == 'attr' and v[1][2] in ('items', 'keys', 'values', 'copy') and not v[2]:
+        return empty_literal(v[1][1])
+    if v[0] == 'call' and v[1][0] == 'lib' and v[1][1] in ('list', 'tuple', 'dict', 'iter', 'sorted', 'set') and len(v[2]) == 1 and not v[3]:
+        return empty_literal(v[2][0])
     return False
 
 
@@ -293,6 +312,7 @@ class Engine(object):
         self.notes = []
         self._closures = {}
         self._pending_defaults = []
+        self.collapse_pure = False
 
     # ------------------------------------------------------------------ entry
     def run_function(self, fnode, env, params=None, facts=None):
@@ -383,7 +403,7 @@ class Engine(object):
     def st_ImportFrom(self, s, st):
         mod = ('.' * s.level) + (s.module or '')
         for a in s.names:
-            st.env[a.asname or a.name] = ('lib', '%s.%s' % (mod, a.name))
+            st.env[a.asname or a.name] = ('lib', ('%s.%s' % (mod, a.name)) if s.module else mod + a.name)
         return [Out(NEXT, st)]
 
     def st_FunctionDef(self, s, st):
@@ -608,6 +628,8 @@ class Engine(object):
         if itval[0] in ('tuple', 'list') and not any(x[0] == 'star' for x in itval[1]) and hook is None:
             return self._loop_exact(itval[1], st, target, body, orelse, node, body_fn)
         tr = st.facts.get('truth', {}).get(itval)
+        if empty_literal(itval):
+            known_empty = True
         if tr is True:
             known_nonempty = True       # a container that tested true has at least one element
         elif tr is False and itval[0] in ('param', 'tuple', 'list', 'dict'):
@@ -812,6 +834,10 @@ class Engine(object):
         h = self.model.sub_store(obj, idx, v, st, node)
         if h is not None:
             return h
+        if obj[0] in ('dict', 'list', 'set'):
+            for k, cur in list(st.env.items()):
+                if cur is obj or cur == obj:
+                    st.env[k] = ('mut', obj, next(self.uid))
         st.emit('SETITEM', (obj, idx, v), getattr(node, 'lineno', 0))
         return [R(st, NONE)]
 
@@ -914,6 +940,8 @@ class Engine(object):
                     for r2 in self.ev(n.value, r.st):
                         if r2.exc is not None:
                             nxt.append(r2)
+                        elif r2.val[0] in ('tuple', 'list') and not any(x[0] == 'star' for x in r2.val[1]):
+                            nxt.append(R(r2.st, r.val + list(r2.val[1])))     # *literal: splice
                         else:
                             nxt.append(R(r2.st, r.val + [('star', r2.val)]))
                 else:
@@ -1177,7 +1205,17 @@ class Engine(object):
                     kws = []
                     for k, v in zip(n.keywords, rk.val):
                         kws.append(('dstar', v) if k.arg is None else ('kw', k.arg, v))
-                    out.extend(self.call(rf.val, tuple(ra.val), tuple(kws), rk.st, n))
+                    res = self.call(rf.val, tuple(ra.val), tuple(kws), rk.st, n)
+                    # a mutating method on a local literal: the variable no longer holds that literal
+                    if isinstance(n.func, ast.Attribute) and isinstance(n.func.value, ast.Name) and n.func.attr in MUTATORS \
+                            and not (n.func.attr in ('update', 'extend') and all(empty_literal(a) for a in ra.val)
+                                     and all(empty_literal(k[-1]) for k in kws)):
+                        nm = n.func.value.id
+                        for r in res:
+                            cur = r.st.env.get(nm)
+                            if cur is not None and cur[0] in ('dict', 'list', 'set'):
+                                r.st.env[nm] = ('mut', cur, next(self.uid))
+                    out.extend(res)
         return out
 
     def call(self, f, args, kws, st, node):
@@ -1304,6 +1342,9 @@ class Engine(object):
                 callee_env[nm] = C(d.value)
             else:
                 callee_env[nm] = ('default', nm, unparse(d))
+        n_events0 = len(st.events)
+        facts0 = _copyfacts(st.facts)
+        zero0 = st.zero
         st.env = callee_env
         st.depth += 1
         st.frames = st.frames + (label,)
@@ -1314,6 +1355,22 @@ class Engine(object):
             outs = [Out(RETURN, r.st, r.val) if r.exc is None else Out(RAISE, r.st, exc=r.exc, line=r.line) for r in results]
         else:
             outs = self.exec_block(fnode.body, st)
+        if self.collapse_pure and len(outs) > 1 and all(o.kind in (NEXT, RETURN) and all(e.kind == 'BRANCH' for e in o.st.events[n_events0:]) for o in outs):
+            # an event-free helper: its internal case split does not matter to any rule -> one outcome, phi value
+            vals = []
+            for o in outs:
+                v = NONE if o.kind == NEXT else o.val
+                if v not in vals:
+                    vals.append(v)
+            st0 = outs[0].st
+            st0.env = saved_env
+            st0.depth -= 1
+            st0.frames = st0.frames[:-1]
+            st0.facts = facts0
+            st0.zero = zero0
+            st0.events = st0.events[:n_events0]
+            val = vals[0] if len(vals) == 1 else ('phi', tuple(sorted(vals, key=repr)))
+            return [R(st0, val)]
         res = []
         for o in outs:
             o.st.env = dict(saved_env) if len(outs) > 1 else saved_env
@@ -1388,7 +1445,18 @@ class Engine(object):
         shadow = dict((k, st.env.get(k)) for k in names)
         res = []
         first_iter = None
-        for o in go(0, st):
+        n_events0 = len(st.events)
+        facts0 = _copyfacts(st.facts) if self.collapse_pure else None
+        zero0 = st.zero
+        gouts = go(0, st)
+        if self.collapse_pure and len(gouts) > 1 and all(o.kind == NEXT and all(e.kind == 'BRANCH' for e in o.st.events[n_events0:]) for o in gouts):
+            # an event-free comprehension: iteration count is irrelevant to every rule
+            o = gouts[0]
+            o.st.facts = facts0
+            o.st.zero = zero0
+            o.st.events = o.st.events[:n_events0]
+            gouts = [o]
+        for o in gouts:
             for k, v in shadow.items():
                 if v is None:
                     o.st.env.pop(k, None)
